@@ -190,4 +190,334 @@ theorem index?_refs (addrs : List Nat) (j : Nat) (i : Int) (a : Nat) (ha : addrs
   rw [hi]
   simp [List.getElem?_map, ha]
 
+/-! ### the whole object: `Rep` -/
+
+section RepSec
+variable {α : Type} [DecidableEq α]
+
+/-- a slot of `item_list`: the `_MISSING` tombstone or the item -/
+def ofItem : Option α → Val α Unit
+  | none => .sentinel
+  | some x => .key x
+
+/-- `item_index_map` with Python ints as values -/
+def castIdx (m : IMap α) : PyRt.Dict α Int := m.map (fun p => (p.1, (p.2 : Int)))
+
+/-- the generated object state `st` stands for the model state `s` -/
+structure Rep (st : IndexedSet.St α) (s : ISet α) : Prop where
+  items : st.item_list = s.items.map ofItem
+  idx : st.item_index_map = castIdx s.idx
+  dead : RepDead st.heap st.dead_indices s.dead
+
+theorem find_castIdx (m : IMap α) (x : α) :
+    PyRt.Dict.find (castIdx m) x = (IMap.lookup m x).map (fun n => (n : Int)) := by
+  induction m with
+  | nil => rfl
+  | cons p m ih =>
+    obtain ⟨k, v⟩ := p
+    simp only [castIdx, List.map_cons, PyRt.Dict.find, IMap.lookup] at *
+    split <;> simp_all
+
+theorem contains_castIdx (m : IMap α) (x : α) : PyRt.Dict.contains (castIdx m) x = (IMap.lookup m x).isSome := by
+  simp only [PyRt.Dict.contains, find_castIdx]
+  cases IMap.lookup m x <;> rfl
+
+theorem set_castIdx (m : IMap α) (x : α) (n : Nat) :
+    PyRt.Dict.set (castIdx m) x (n : Int) = castIdx (IMap.set m x n) := by
+  induction m with
+  | nil => rfl
+  | cons p m ih =>
+    obtain ⟨k, v⟩ := p
+    simp only [castIdx, List.map_cons, PyRt.Dict.set, IMap.set] at *
+    split <;> simp_all
+
+theorem length_castIdx (m : IMap α) : (castIdx m).length = m.length := by simp [castIdx]
+
+theorem erase_castIdx (m : IMap α) (x : α) (h : (IMap.keys m).Nodup) :
+    PyRt.Dict.erase (castIdx m) x = castIdx (IMap.erase m x) := by
+  induction m with
+  | nil => rfl
+  | cons p m ih =>
+    obtain ⟨k, v⟩ := p
+    simp only [IMap.keys, List.map_cons, List.nodup_cons] at h
+    have ih' := ih (by simpa [IMap.keys] using h.2)
+    simp only [castIdx, List.map_cons, PyRt.Dict.erase, IMap.erase, List.filter_cons] at *
+    by_cases hk : k = x
+    · subst hk
+      simp only [decide_true, Bool.not_true, Bool.false_eq_true, if_false, if_true]
+      apply List.filter_eq_self.2
+      intro q hq
+      simp only [List.mem_map] at hq
+      obtain ⟨⟨k2, v2⟩, hm, rfl⟩ := hq
+      have : k2 ≠ k := by
+        intro hkk; subst hkk
+        exact h.1 (List.mem_map.2 ⟨(k2, v2), hm, rfl⟩)
+      simp [this]
+    · simp [hk, ih']
+
+
+/-- the loop of `_compact`, whatever its body looks like, as long as one iteration writes `items[i] = item` and
+    `index_map[item] = i`: `W` = the slots written so far, `M` = stale slots already read, `rest` = the slots not yet read -/
+theorem compact_loop {σ ρ φ : Type} (proj : σ → IndexedSet.St α) (frame : σ → φ) (bind : Int → Val α Unit → σ → σ)
+    (body : Stmt σ ρ) (keep : Val α Unit → Bool) (hk1 : keep .sentinel = false) (hk2 : ∀ x, keep (.key x) = true)
+    (hbody : ∀ (t : σ) (i : Int) (x : α), 0 ≤ i → i < (proj t).item_list.length →
+      ∃ t', body (bind i (.key x) t) = (.next, t') ∧
+        proj t' = ⟨(proj t).heap, PyRt.Dict.set (proj t).item_index_map x i, (proj t).item_list.set i.toNat (.key x),
+                   (proj t).dead_indices, (proj t).compactions, (proj t).c_max_size⟩ ∧ frame t' = frame t) :
+    ∀ (rest : List (Option α)) (W M : List (Val α Unit)) (m : IMap α) (fuel : Nat) (t : σ),
+      rest.length < fuel →
+      (proj t).item_list = W ++ M ++ rest.map ofItem → (proj t).item_index_map = castIdx m →
+      ∃ t', forLazy (fun s => (proj s).item_list) keep bind body fuel
+            (W.length + M.length) (W.length : Int) t = (.next, t') ∧
+        proj t' = ⟨(proj t).heap, castIdx (assignIdx m (live rest) W.length),
+                   W ++ (live rest).map Val.key ++ (M ++ rest.map ofItem).drop (live rest).length,
+                   (proj t).dead_indices, (proj t).compactions, (proj t).c_max_size⟩ ∧ frame t' = frame t := by
+  intro rest
+  induction rest with
+  | nil =>
+    intro W M m fuel t hf hl hi
+    obtain ⟨n, rfl⟩ : ∃ n, fuel = n + 1 := ⟨fuel - 1, by simp at hf; omega⟩
+    refine ⟨t, ?_, ?_, rfl⟩
+    · simp [forLazy, hl]
+    · have : (proj t).item_list = W ++ M := by simpa using hl
+      simp only [live, assignIdx, List.filterMap_nil, List.map_nil, List.append_nil, List.length_nil, List.drop_zero,
+        ← this, ← hi]
+  | cons o rest ih =>
+    intro W M m fuel t hf hl hi
+    obtain ⟨n, rfl⟩ : ∃ n, fuel = n + 1 := ⟨fuel - 1, by simp at hf; omega⟩
+    have hget : (proj t).item_list[W.length + M.length]? = some (ofItem o) := by
+      rw [hl, List.append_assoc, List.getElem?_append_right (by omega),
+        List.getElem?_append_right (by omega)]
+      simp
+    cases o with
+    | none =>
+      obtain ⟨t', h1, h2, h3⟩ := ih W (M ++ [Val.sentinel]) m n t (by simp at hf; omega)
+        (by rw [hl]; simp [ofItem]) hi
+      refine ⟨t', ?_, ?_, h3⟩
+      · simp only [forLazy, hget, ofItem, hk1]
+        simpa [Nat.add_assoc] using h1
+      · rw [h2]; simp [live, ofItem]
+    | some x =>
+      have hlt : W.length + M.length < (proj t).item_list.length := by rw [hl]; simp
+      obtain ⟨t1, hb1, hb2, hb3⟩ := hbody t (W.length : Int) x (by omega) (by omega)
+      -- the list after `items[i] = item`
+      have hset : (proj t).item_list.set W.length (Val.key x) =
+          (W ++ [Val.key x]) ++ (M ++ [Val.key x]).tail ++ rest.map ofItem := by
+        rw [hl]
+        cases M with
+        | nil => simp [ofItem, List.set_append]
+        | cons m0 M2 => simp [ofItem, List.set_append]
+      have hl1 : (proj t1).item_list = (W ++ [Val.key x]) ++ (M ++ [Val.key x]).tail ++ rest.map ofItem := by
+        rw [hb2]; simpa using hset
+      have hi1 : (proj t1).item_index_map = castIdx (IMap.set m x W.length) := by
+        rw [hb2]; simp only; rw [hi, set_castIdx]
+      obtain ⟨t', h1, h2, h3⟩ := ih (W ++ [Val.key x]) ((M ++ [Val.key x]).tail) (IMap.set m x W.length) n t1
+        (by simp at hf; omega) hl1 hi1
+      refine ⟨t', ?_, ?_, h3.trans hb3⟩
+      · simp only [forLazy, hget, ofItem, hk2, if_true, hb1]
+        have e1 : (W ++ [Val.key x]).length + (M ++ [Val.key x]).tail.length = W.length + M.length + 1 := by
+          simp; omega
+        have e2 : (((W ++ [Val.key x]).length : Nat) : Int) = (W.length : Int) + 1 := by simp
+        rw [e1, e2] at h1
+        exact h1
+      · rw [h2, hb2]
+        simp only [live, List.filterMap_cons, id, assignIdx, List.length_append, List.length_cons, List.length_nil]
+        cases M with
+        | nil => simp [ofItem]
+        | cons m0 M2 => simp [ofItem]
+@[simp] theorem ofItem_some (x : α) : ofItem (some x) = Val.key x := rfl
+@[simp] theorem ofItem_none : ofItem (none : Option α) = Val.sentinel := rfl
+
+theorem delSlice_all {β : Type} (l : List β) : delSlice l none none = [] := by
+  unfold delSlice
+  cases l <;> simp
+
+theorem delSlice_neg_tail {β : Type} (l : List β) (n : Nat) (hn : n ≤ l.length) :
+    delSlice l (some (-(n : Int))) none = if n = 0 then [] else l.take (l.length - n) := by
+  unfold delSlice PyRt.clampBound
+  by_cases h0 : n = 0
+  · subst h0; cases l <;> simp
+  · have h1 : (-(n : Int)) < 0 := by omega
+    have h2 : ((-(n : Int)) + (l.length : Int)).toNat = l.length - n := by omega
+    simp only [h1, if_true, h2, h0, if_false]
+    rw [if_pos (by omega)]
+    simp
+
+theorem repDead_nil_iff {h : Heap α Unit} {refs : List (Val α Unit)} {dead : List (Nat × Nat)} (hr : RepDead h refs dead) :
+    refs.isEmpty = dead.isEmpty := by
+  obtain ⟨addrs, rfl, _, hc⟩ := hr
+  have := congrArg List.length hc
+  simp at this
+  cases addrs <;> cases dead <;> simp_all
+
+theorem repDead_nil (h : Heap α Unit) : RepDead h [] [] := ⟨[], rfl, by simp, rfl⟩
+
+
+/-- the whole loop, from the start of the list -/
+theorem compact_loop0 {σ ρ φ : Type} (proj : σ → IndexedSet.St α) (frame : σ → φ) (bind : Int → Val α Unit → σ → σ)
+    (body : Stmt σ ρ) (keep : Val α Unit → Bool) (hk1 : keep .sentinel = false) (hk2 : ∀ x, keep (.key x) = true)
+    (hbody : ∀ (t : σ) (i : Int) (x : α), 0 ≤ i → i < (proj t).item_list.length →
+      ∃ t', body (bind i (.key x) t) = (.next, t') ∧
+        proj t' = ⟨(proj t).heap, PyRt.Dict.set (proj t).item_index_map x i, (proj t).item_list.set i.toNat (.key x),
+                   (proj t).dead_indices, (proj t).compactions, (proj t).c_max_size⟩ ∧ frame t' = frame t)
+    (items : List (Option α)) (m : IMap α) (fuel : Nat) (t : σ) (hf : items.length < fuel)
+    (hl : (proj t).item_list = items.map ofItem) (hi : (proj t).item_index_map = castIdx m) :
+    ∃ t', forLazy (fun s => (proj s).item_list) keep bind body fuel 0 0 t = (.next, t') ∧
+      proj t' = ⟨(proj t).heap, castIdx (assignIdx m (live items) 0),
+                 (live items).map Val.key ++ (items.map ofItem).drop (live items).length,
+                 (proj t).dead_indices, (proj t).compactions, (proj t).c_max_size⟩ ∧ frame t' = frame t := by
+  have := compact_loop proj frame bind body keep hk1 hk2 hbody items [] [] m fuel t hf (by simpa using hl) hi
+  simpa using this
+
+/-! ### the two loops of `_cull` -/
+
+theorem takeWhile_pos {β : Type} (p : β → Bool) : ∀ (R : List β) (k : Nat), k < (R.takeWhile p).length →
+    ∃ x, R[k]? = some x ∧ p x = true
+  | [], k, h => by simp at h
+  | y :: R, k, h => by
+    by_cases hp : p y = true
+    · simp only [List.takeWhile_cons, hp, if_true, List.length_cons] at h
+      cases k with
+      | zero => exact ⟨y, rfl, hp⟩
+      | succ k => simpa using takeWhile_pos p R k (by omega)
+    · simp [List.takeWhile_cons, hp] at h
+
+theorem takeWhile_stop {β : Type} (p : β → Bool) : ∀ (R : List β), (R.takeWhile p).length < R.length →
+    ∃ x, R[(R.takeWhile p).length]? = some x ∧ p x = false
+  | [], h => by simp at h
+  | y :: R, h => by
+    by_cases hp : p y = true
+    · simp only [List.takeWhile_cons, hp, if_true, List.length_cons] at h ⊢
+      simpa using takeWhile_stop p R (by omega)
+    · simp only [List.takeWhile_cons, hp]
+      exact ⟨y, rfl, by simpa using hp⟩
+
+/-- the slot `k` from the end -/
+theorem index?_from_end (items : List (Option α)) (k : Nat) (hk : k < items.length) :
+    PyRt.index? (items.map ofItem) (-((k : Int) + 1)) = .ok (ofItem (items.reverse[k]?.getD none)) := by
+  unfold PyRt.index? PyRt.normIdx
+  have h1 : (-((k : Int) + 1)) < 0 := by omega
+  simp only [h1, if_true, List.length_map]
+  have h2 : ¬ (-((k : Int) + 1) + (items.length : Int) < 0) := by omega
+  have h3 : (-((k : Int) + 1) + (items.length : Int)).toNat = items.length - 1 - k := by omega
+  rw [if_neg h2, h3, List.getElem?_map, List.getElem?_reverse hk]
+  have : items.length - 1 - k < items.length := by omega
+  simp [List.getElem?_eq_getElem this]
+
+/-- the loop `while items[-(num_dead + 1)] is _MISSING: num_dead += 1` -/
+theorem tail_loop {σ ρ φ : Type} (L : σ → List (Val α Unit)) (n : σ → Int) (frame : σ → φ)
+    (c : σ → Except PyExc Bool) (body : Stmt σ ρ)
+    (hc : ∀ t, c t = bx (PyRt.index? (L t) (-(n t + 1))) (fun v => .ok (Val.isSentinel v)))
+    (hb : ∀ t, ∃ t', body t = (.next, t') ∧ L t' = L t ∧ n t' = n t + 1 ∧ frame t' = frame t)
+    (items : List (Option α)) (htd : trailingDead items < items.length) :
+    ∀ (fuel k : Nat) (t : σ), L t = items.map ofItem → n t = (k : Int) → k ≤ trailingDead items →
+      trailingDead items - k < fuel →
+      ∃ t', whileLoop c body fuel t = (.next, t') ∧ L t' = L t ∧ n t' = (trailingDead items : Int) ∧
+        frame t' = frame t := by
+  intro fuel
+  induction fuel with
+  | zero => intro k t _ _ _ h; omega
+  | succ f ih =>
+    intro k t hL hn hk hf
+    have hidx := index?_from_end items k (by omega)
+    simp only [whileLoop, hc, hL, hn, hidx, bx_ok]
+    by_cases hlt : k < trailingDead items
+    · obtain ⟨x, hx1, hx2⟩ := takeWhile_pos isTomb items.reverse k hlt
+      cases x with
+      | some y => simp [isTomb] at hx2
+      | none =>
+        obtain ⟨t1, hb1, hb2, hb3, hb4⟩ := hb t
+        obtain ⟨t', h1, h2, h3, h4⟩ := ih (k + 1) t1 (hb2.trans hL) (by rw [hb3, hn]; simp) (by omega) (by omega)
+        refine ⟨t', ?_, (h2.trans hb2).trans hL, h3, h4.trans hb4⟩
+        simp [hx1, ofItem, Val.isSentinel, hb1, h1]
+    · have hk2 : k = trailingDead items := by omega
+      obtain ⟨x, hx1, hx2⟩ := takeWhile_stop isTomb items.reverse (by simpa [trailingDead] using htd)
+      refine ⟨t, ?_, hL, by rw [hn, hk2], rfl⟩
+      subst hk2
+      cases x with
+      | none => simp [isTomb] at hx2
+      | some y =>
+        unfold trailingDead
+        simp [hx1, ofItem, Val.isSentinel]
+
+theorem nil_or_snoc {β : Type} (l : List β) : l = [] ∨ ∃ L b, l = L ++ [b] := by
+  cases h : l.reverse with
+  | nil => left; simpa using h
+  | cons b L =>
+    right
+    refine ⟨L.reverse, b, ?_⟩
+    have := congrArg List.reverse h
+    simpa using this
+
+theorem popDeadFrom_snoc (d : List (Nat × Nat)) (p : Nat × Nat) (n : Nat) :
+    popDeadFrom (d ++ [p]) n = if n ≤ p.1 then popDeadFrom d n else d ++ [p] := by
+  simp only [popDeadFrom, List.reverse_append, List.reverse_cons, List.reverse_nil, List.nil_append,
+    List.singleton_append, List.dropWhile_cons, startsAtOrAfter, decide_eq_true_eq]
+  split <;> simp
+
+theorem index?_last {β : Type} (L : List β) (x : β) : PyRt.index? (L ++ [x]) (-1) = .ok x := by
+  unfold PyRt.index? PyRt.normIdx
+  have h2 : (-1 + ((L ++ [x]).length : Int)).toNat = L.length := by simp; omega
+  have h3 : ¬ (-1 + ((L ++ [x]).length : Int) < 0) := by simp; omega
+  simp only [show ((-1 : Int) < 0) from by omega, if_true, h2, if_neg h3]
+  simp
+
+theorem delIdx?_last {β : Type} (L : List β) (x : β) : delIdx? (L ++ [x]) (-1) = .ok L := by
+  unfold delIdx? PyRt.normIdx
+  have h2 : (-1 + ((L ++ [x]).length : Int)).toNat = L.length := by simp; omega
+  have h3 : 0 ≤ (-1 + ((L ++ [x]).length : Int)) ∧ (-1 + ((L ++ [x]).length : Int)) < ((L ++ [x]).length : Int) := by
+    simp; omega
+  simp only [show ((-1 : Int) < 0) from by omega, if_true, h2, if_pos h3]
+  simp [List.eraseIdx_append_of_length_le]
+
+/-- the loop `while ded and ded[-1][0] >= len(items): del ded[-1]` -/
+theorem dead_loop {σ ρ : Type} (H : σ → Heap α Unit) (D : σ → List (Val α Unit)) (N : σ → Int)
+    (c : σ → Except PyExc Bool) (body : Stmt σ ρ)
+    (hc : ∀ t, c t = andE (.ok (!(D t).isEmpty)) (bx (bx (PyRt.index? (D t) (-1)) (fun v => Heap.get? (H t) v 0))
+      (fun v7 => bx (asInt? v7) (fun v8 => .ok (decide (v8 ≥ N t))))))
+    (hb : ∀ t L x, D t = L ++ [x] → ∃ t', body t = (.next, t') ∧ D t' = L ∧ H t' = H t ∧ N t' = N t) (n : Nat) :
+    ∀ (fuel : Nat) (addrs : List Nat) (dead : List (Nat × Nat)) (t : σ), D t = addrs.map Val.ref →
+      addrs.map (H t).cell = dead.map ivCell → N t = (n : Int) → dead.length < fuel →
+      ∃ t' m, whileLoop c body fuel t = (.next, t') ∧ D t' = (addrs.take m).map Val.ref ∧ m ≤ dead.length ∧
+        popDeadFrom dead n = dead.take m ∧ H t' = H t ∧ N t' = N t := by
+  intro fuel
+  induction fuel with
+  | zero => intro _ _ _ _ _ _ h; omega
+  | succ f ih =>
+    intro addrs dead t hD hcells hN hf
+    have hlen : addrs.length = dead.length := by simpa using congrArg List.length hcells
+    rcases nil_or_snoc addrs with rfl | ⟨A, a, rfl⟩
+    · have : dead = [] := by cases dead with | nil => rfl | cons _ _ => simp at hlen
+      subst this
+      refine ⟨t, 0, ?_, by simpa using hD, Nat.le_refl _, by simp [popDeadFrom], rfl, rfl⟩
+      simp [whileLoop, hc, hD, andE]
+    · rcases nil_or_snoc dead with rfl | ⟨d', p, rfl⟩
+      · simp at hlen
+      · simp only [List.map_append, List.map_cons, List.map_nil] at hcells hD
+        have hl2 : (A.map (H t).cell).length = (d'.map (ivCell (κ := α))).length := by simp at hlen ⊢; omega
+        obtain ⟨hc1, hc2⟩ := List.append_inj hcells hl2
+        have hca : (H t).cell a = ivCell p := by simpa using hc2
+        have hcond : c t = .ok (decide (n ≤ p.1)) := by
+          rw [hc, hD]
+          have hne : (List.map (Val.ref (κ := α) (ν := Unit)) A ++ [Val.ref a]).isEmpty = false := by
+            cases A <;> rfl
+          have hi0 : PyRt.index? [Val.int (p.1 : Int), Val.int (p.2 : Int)] 0
+              = .ok (Val.int (p.1 : Int) : Val α Unit) := rfl
+          simp only [andE, hne, Bool.not_false, bx_ok, if_true, index?_last, Heap.get?, hca, ivCell, hN, hi0, asInt?]
+          simp
+        by_cases hge : n ≤ p.1
+        · obtain ⟨t1, hb1, hb2, hb3, hb4⟩ := hb t _ _ hD
+          obtain ⟨t', m, h1, h2, h3, h4, h5, h6⟩ := ih A d' t1 hb2 (by rw [hb3]; exact hc1) (by rw [hb4, hN])
+            (by simp at hf; omega)
+          refine ⟨t', m, ?_, ?_, by simp; omega, ?_, h5.trans hb3, h6.trans hb4⟩
+          · simp [whileLoop, hcond, hge, hb1, h1]
+          · rw [h2, List.take_append_of_le_length (by simp at hlen; omega)]
+          · rw [popDeadFrom_snoc, if_pos hge, h4, List.take_append_of_le_length h3]
+        · refine ⟨t, (d' ++ [p]).length, ?_, ?_, Nat.le_refl _, ?_, rfl, rfl⟩
+          · simp [whileLoop, hcond, hge]
+          · rw [hD, ← hlen, ← List.map_singleton (f := Val.ref), ← List.map_append, List.take_length]
+          · rw [popDeadFrom_snoc, if_neg hge, List.take_length]
+
+end RepSec
+
 end C11
